@@ -47,15 +47,20 @@ def run(ctx):
     cat, pre = unitcat.extract(ctx)
     prep_specs(ctx, cat, pre, ["MC_Units.tla", "Gen_Units.tla", "Trace_Units.tla", "Trace_Units.cfg"])
     ids_a = ["Meters", "Feet", "Seconds", "Kelvins", "Celsius"] + ([] if ctx.tier == "quick" else ["Hertz", "Radians", "Degrees"])
-    cfg = ctx.write("MC_Units.cfg", 'CONSTANTS Cat <- CatDef Pre <- PrefixDef\n Ids = {%s}\nSPECIFICATION Spec\nINVARIANTS Exact RewriteSound Canonical OrderTotal\n' % ", ".join('"%s"' % i for i in ids_a))
-    a = ctx.tlc(ctx.path("MC_Units.tla"), cfg=cfg, timeout=2400, name="layerA units", coverage=True, allow_violation=True)
-    if a.violated:
-        raise core.ToolError("Layer A: invariant %s of MC_Units fails\n%s" % (a.violated, "\n".join(a.out.splitlines()[-30:])))
-    zero = [k for k in ("Commute", "DivAsInverse", "DistributePower", "PowerOfPower", "Reassociate", "MultiplyAndCancel") if a.coverage.get(k, (0, 0))[0] == 0]
-    if zero:
-        raise core.ToolError("Layer A vacuity: %s never taken" % zero)
-    ctx.layers["A"] = {"module": "MC_Units.tla (Units.tla)", "universe": ids_a, "distinct": a.distinct, "exhaustive": True,
-                       "actions": {k: v[0] for k, v in a.coverage.items()}}
+    cfg = ctx.write("MC_Units.cfg", 'CONSTANTS Cat <- CatDef Pre <- PrefixDef Small0 = %s\n Ids = {%s}\nSPECIFICATION Spec\nINVARIANTS Exact RewriteSound Canonical OrderTotal\n' % ("TRUE" if ctx.tier == "quick" else "FALSE", ", ".join('"%s"' % i for i in ids_a)))
+    import concurrent.futures as _cf
+    _ex = _cf.ThreadPoolExecutor(max_workers=1)
+    _fa = _ex.submit(lambda: ctx.tlc(ctx.path("MC_Units.tla"), cfg=cfg, timeout=2400, name="layerA units", coverage=True, allow_violation=True, workers=6))
+
+    def finish_layer_a():
+        a = _fa.result()
+        if a.violated:
+            raise core.ToolError("Layer A: invariant %s of MC_Units fails\n%s" % (a.violated, "\n".join(a.out.splitlines()[-30:])))
+        zero = [k for k in ("Commute", "DivAsInverse", "DistributePower", "PowerOfPower", "Reassociate", "MultiplyAndCancel") if a.coverage.get(k, (0, 0))[0] == 0]
+        if zero:
+            raise core.ToolError("Layer A vacuity: %s never taken" % zero)
+        ctx.layers["A"] = {"module": "MC_Units.tla (Units.tla)", "universe": ids_a, "distinct": a.distinct, "exhaustive": True,
+                           "actions": {k: v[0] for k, v in a.coverage.items()}}
     ids2 = ["Meters", "Feet", "Seconds", "Hertz", "Celsius", "Kelvins"] if ctx.tier == "thorough" else ["Meters", "Feet", "Seconds", "Celsius", "Kelvins"]
     gcfg = ctx.write("Gen_Units.cfg", 'CONSTANTS Cat <- CatDef Pre <- PrefixDef\n Ids2 = {%s}\nINIT Init\nNEXT Next\nINVARIANT Emit\n' % ", ".join('"%s"' % i for i in ids2))
     g = ctx.tlc(ctx.path("Gen_Units.tla"), cfg=gcfg, timeout=1800, name="gen unit expressions")
@@ -183,3 +188,4 @@ def run(ctx):
         ctx.sample({"expr": expr_str(c["e"]), "dim": c["dim"], "mag": c["mag"], "pure": c["pure"]})
     ctx.layers["B"] = dict(stats, cases=len(cases), excluded=n_excl, configs=cfgs, compiles=ncomp[0])
     ctx.layers["C"] = {"readouts_validated_by_TLC": nval}
+    finish_layer_a()
